@@ -18,7 +18,7 @@ THEOREMS = ['C16_quoted_atom_roundtrip', 'C16_quoted_atom_in_context', 'C16_quot
             'C16_list_pattern_folds', 'C16_list_literal', 'C16_anon_fresh', 'C16_anon_name_inj', 'C16_anon_not_source',
             'C16_literal_denotation', 'C16_makelist_listpair_chain', 'C16_to_python_literal', 'C16_to_python_compiled_literal',
             'C16_api_term_unifies', 'C16_atom_identity', 'C16_atom_unify_by_name',
-            'C16_file_bytes_roundtrip', 'C16_file_entry_point', 'C16_cli_reads_text', 'C16_file_encoding_injective', 'C16_file_ascii_bytes']
+            'C16_file_bytes_roundtrip', 'C16_file_entry_point', 'C16_cli_reads_text', 'C16_file_decoding_strict', 'C16_file_encoding_injective', 'C16_file_ascii_bytes']
 RULE = ('programs of facts fact_i(L, V1..Vn), rules body_i(R, V1..Vn) :- R = L and at_j(A) for random literals L: plain and quoted '
         'atoms (spaces, quotes, line breaks, tabs, non-ASCII incl. astral and combining code points, digits-only, empty, [] ), '
         'integers with leading zeros and bignums, named and anonymous variables, compound terms with plain, quoted and operator '
